@@ -114,8 +114,11 @@ func (c *Authority) VerifyPartialCert(cert hotstuff.PartialCert) error {
 
 // VerifyQuorumCert verifies a quorum certificate.
 func (c *Authority) VerifyQuorumCert(qc hotstuff.QuorumCert) error {
-	// genesis QC is always valid.
+	// the genesis QC is always valid, but only for the view of the genesis block.
 	if qc.BlockHash() == hotstuff.GetGenesis().Hash() {
+		if qc.View() != hotstuff.GetGenesis().View() {
+			return fmt.Errorf("quorum certificate for the genesis block has view %d", qc.View())
+		}
 		return nil
 	}
 
@@ -133,6 +136,10 @@ func (c *Authority) VerifyQuorumCert(qc hotstuff.QuorumCert) error {
 	block, ok := c.blockchain.Get(qc.BlockHash())
 	if !ok {
 		return fmt.Errorf("block not found: %v", qc.BlockHash())
+	}
+	// the signatures cover the block only; the view stated by the QC must be the block's view.
+	if qc.View() != block.View() {
+		return fmt.Errorf("quorum certificate view %d does not match block view %d", qc.View(), block.View())
 	}
 	return c.Verify(qc.Signature(), block.ToBytes())
 }
